@@ -64,7 +64,7 @@ def check(prop, tier, seed):
 
 def replay(obj):
     s = obj.get("scenario")
-    run = Run("C19", "quick", 0)
+    run = Run("C19", "replay", 0)
     binp = go_test_build("./sess/", "sess.test")
     traces = sc.run_driver(run, binp, [s], "replay", testname="TestDispatch")
     rej = sc.validate(run, traces, module="DispatchTrace", mods=["Dispatch.tla", "DispatchTrace.tla"])
